@@ -21,7 +21,7 @@ var (
 
 //go:norace
 func permSlot() int {
-	if s := curSched; s != nil && s.active && s.token >= 0 {
+	if s := curSched; s != nil && s.active && s.token >= 0 && !s.ambient {
 		return s.token
 	}
 	return permSeqSlot
